@@ -34,6 +34,18 @@ CHECKS = {
    technique="property-based testing (rapid): grammar-based generation of schemas, DML histories and SELECTs; differential oracles (forced-plan, twin tables without indexes, in-tx/committed/reopened, spill thresholds), metamorphic TLP partitioning, and a naive nested-loop reference executor",
    text="One case = one generated database (1-3 tables of all column types, composite keys, plain/unique/composite indexes created before or after data, a twin table without secondary indexes receiving the same statements), a generated DML history (insert/upsert/on-conflict/update of indexed columns/delete, failing statements, reopens) and 12-40 generated SELECTs (comparisons, ranges, IN, LIKE, BETWEEN, IS NULL, boolean combinations, ORDER BY, LIMIT/OFFSET, DISTINCT, GROUP BY + aggregates + HAVING, joins, subqueries, UNION, HISTORY OF, period queries). Each query is run through every access path (planner's choice, forced primary key, every forced index, twin, derived-table join), inside the open transaction, after commit on two engines (default and tiny sort/distinct spill thresholds) and after reopen: equal sequences under a total ORDER BY, equal multisets otherwise, every output sorted, error-vs-rows is a disagreement; TLP P / NOT P / P IS NULL partitions rows and COUNT(*); a naive executor checks the unambiguous subset.",
    note="Trusted: the naive executor and multiset comparison in internal/sqlgen; NULL semantics as implemented by the engine (two-valued comparisons). 18 engine defects found are pinned as probes and excluded by class (counted) until repaired; window functions, CTEs, EXCEPT/INTERSECT, DIFF OF not generated."),
+ "C05": dict(level="exploration", design="DESIGN.md §2 C05",
+   technique="property-based testing (rapid): generated concurrent transaction programs on a real store with a harness-owned step schedule; oracle = serial replay of the committed transactions in id order on a reference model",
+   text="2-5 generated read-write transaction programs (Get/GetWithFilters incl. not-found/deleted/expired, GetWithPrefix, key readers with seek/end/inclusive/direction/offset/filters/Reset/ReadBetween/early stop, MarkPrefixScanned, Set/Delete/SetTransient, Commit/AsyncCommit/Cancel) with generated snapshot policies run on real goroutines against one store, interleaved by a generated schedule with write-only committers, index flushes, a lagging indexer and read-only scanners. After the run the committed txs are replayed in id order on the KV-history model: every logged read of a committed tx must equal state(id-1) plus its own earlier writes; ids are dense; conflicted/cancelled txs leave no trace; ReadTx equals the acknowledged write set; every scanner observation equals state(t) for some t. Spurious conflicts are counted, never failed.",
+   note="Schedule coverage is what the generated step schedule and the Go scheduler produce (commit critical sections race for real); oracle is schedule-agnostic. UnsafeMVCC out of scope; writes while a reader is open without Reset, Offset with Reset, ReadBetween over own writes not generated (undocumented). K05a/K05b (own-write results not validated) excluded by class; K05c repaired and pinned."),
+ "C06": dict(level="exploration", design="DESIGN.md §2 C06",
+   technique="property-based testing (rapid): generated concurrent client histories on one pkg/database DB; frontier-window linearizability oracle using tx ids, cross-checked by a Wing-Gong register search",
+   text="3-8 client goroutines on one database over 6-12 keys issue generated Set/multi-key Set/ExecAll/Delete/SetReference/ZAdd/Get (plain, SinceTx, AtTx, AtRevision)/GetAll/Scan/ZScan/History/Count and writes with KeyMustExist/KeyMustNotExist/KeyNotModifiedAfterTx preconditions, with background FlushIndex/CompactIndex and generated schedule perturbation at storage operations. Every call is logged with the committed frontier before and after; after the run all txs are read back: write ids unique and inside their window, tx content equals the request, explicit and implicit conditions true on state(id-1), a refused write refusable on some state in its window, every read equals the model on a single state T inside its window (multi-key reads: one T), exactly one successful call per committed tx; single-key sub-histories are re-checked by a register linearizability search.",
+   note="Default waiting semantics only (no NoWait); Count accepted against either reading of deleted keys (undocumented); AtTx lower bound is 'writes that had returned'. K06a (stale reads after CompactIndex restart), K06b (ZScan SinceTx mixes snapshots), K06c (reference resolved with a second live lookup) pinned and excluded by class."),
+ "C19": dict(level="exploration", design="DESIGN.md §2 C19",
+   technique="property-based testing (rapid): generated collection schemas, schema evolution, documents and queries on the document engine vs a reference document list and an index-free twin collection; proof round-trips with alteration",
+   text="Generated schemas (STRING/INTEGER/DOUBLE/BOOLEAN/UUID, nested paths, unique/composite indexes, custom id field), histories of insert-batch/replace/delete (by id, query, limit+order) and AddField/RemoveField/CreateIndex/DeleteIndex, documents with nested JSON, missing/null fields, numeric edge values, unicode, and generated DNF queries with ORDER BY and paging. Every step is applied to an indexed collection and an index-free twin: full listing, id lookup, search membership (asserted where operands are present and non-null), counts, audit trail and encoded documents equal the reference list; indexed and twin agree on cardinality, set and order; unique indexes refuse duplicates and refused writes leave the listing unchanged. ProofDocument + VerifyDocument succeed for every stored revision and fail for altered documents, other revisions, swapped ids, flipped bits and wrong states.",
+   note="Null/missing comparison semantics only differential. 11 document/SQL/store defects pinned as probes and excluded by class (K19j repaired). gRPC paging layer, concurrent writers and reopen not driven."),
 }
 
 NOT_YET = "check not built yet in this session (work in progress; see DESIGN.md §2 for the planned harness)"
